@@ -306,11 +306,21 @@ class PathConditions:
         self.marked = []  # (stmt, condition)
         self.raise_sites = []  # (Raise stmt, condition)
         self.return_sites = []
+        self.return_truth = []  # (condition, formula of the returned expression) per return site
         self.loops = 0
         self.inline_raising_calls = inline_raising_calls  # callable(call) -> formula or None: condition under which the call raises
         alive = self.walk(fn.body, TRUE)
         self.returns = disj(self.returns, alive)
         self.falls_through = alive
+
+    def returned_truth(self):
+        """Formula that is true iff the function returns a truthy value (for predicates made of boolean returns)."""
+        out = FALSE
+        for cond, vf in self.return_truth:
+            if vf is None:
+                return None
+            out = disj(out, conj(cond, vf))
+        return out
 
     def walk(self, stmts, alive):
         for st in stmts:
@@ -355,6 +365,11 @@ class PathConditions:
         if isinstance(st, ast.Return):
             self.returns = disj(self.returns, alive)
             self.return_sites.append((st, alive))
+            try:
+                vf = self.at.formula(st.value) if st.value is not None else FALSE
+            except Exception:
+                vf = None
+            self.return_truth.append((alive, vf))
             return FALSE
         if isinstance(st, (ast.For, ast.While)):
             self.loops += 1
